@@ -36,6 +36,13 @@ def call_args(t):
   return list(t.args[1]), dict(t.args[2])
 
 
+def kwarg(t, name, default=None):
+  """Keyword argument `name` of a call term (external calls are in canonical form, see extsig)."""
+  if t.op != 'call' or len(t.args) < 3:
+    return default
+  return dict(t.args[2]).get(name, default)
+
+
 def strip_casts(t):
   """Remove dtype casts / array wrappers that do not change the value."""
   while True:
